@@ -15,6 +15,9 @@ tie T1:  harness/C09_wf.cpp `nodeio`: seeded random operation sequences on REAL 
          interface; after every call both edge directions (consumer lists in storage order), group member
          lists, clock registrations are dumped; ocaml/C09_driver.ml replays the same calls on the extracted
          model; the two files must be identical line by line.
+         Circuit::createUnconnectedClone is replayed with proven operations; Circuit::copySubnet (both copyClocks values, random
+         output / input sets over registers, clocked nodes, signals) renumbers its clones: the REAL state after the call must
+         satisfy the extracted checker and the replay continues from it (later calls delete originals and copies).
 tie T2:  harness/C09_wf.cpp `design`: generated designs through the real frontend; the extracted wf_check runs
          on the graph after every construction statement, at every pass boundary of the real Default/Minimal
          post processors (hook), after repeated optimizeSubnet and after shuffleNodes.
@@ -552,7 +555,7 @@ def run_t1(harness, driver, mode_args, work, tag, seed):
         for kv in m.group(1).split():
             k, _, v = kv.partition("=")
             hist[k] = int(v)
-    st = dict(ops=0, seqs=0, lines=0, changed=0, distinct=0, reorders=0, refused={}, hist=hist, model_inv_false=0, setdrv={})
+    st = dict(ops=0, seqs=0, lines=0, changed=0, distinct=0, reorders=0, refused={}, hist=hist, model_inv_false=0, setdrv={}, clones={})
     mismatch = None
     if driver is None:
         return st, None, crashed, impl
@@ -600,6 +603,14 @@ def run_t1(harness, driver, mode_args, work, tag, seed):
                         seen.add(h)
                     st["reorders"] += 1 if reorder_events(prev, cur_i) else 0
                 t = op.split()
+                if len(t) >= 3 and t[1] in ("clone", "copysubnet") and t[-1] != "!throw" and prev is not None:
+                    old_ids = {l.split()[1] for l in prev if l.startswith("n ")}
+                    new = [l for l in cur_i if l.startswith("n ") and l.split()[1] not in old_ids]
+                    key = t[1] + ("" if t[1] == "clone" else (":copyClocks" if t[2] == "1" else ":sameClocks"))
+                    st["clones"][key] = st["clones"].get(key, 0) + 1
+                    if any(re.search(r" c=[^ ]*\d", l) for l in new):
+                        st["clones"][key + ":with_clocked_nodes"] = st["clones"].get(key + ":with_clocked_nodes", 0) + 1
+                    st["clones"]["nodes_created"] = st["clones"].get("nodes_created", 0) + len(new)
                 if len(t) >= 5 and t[1] == "setdrv" and t[-1] != "!throw" and prev is not None:
                     kl = next((l for l in prev if l.startswith(f"K {t[3]} ")), None)
                     if kl:
@@ -1009,14 +1020,14 @@ def main():
     if not replay:
         nseq, nops = (300, 150) if quick else (1500, 200)
         t1_runs.append((f"generated nseq={nseq} nops={nops} seed={seed}", ["nodeio", str(nseq), str(nops)]))
-    t1 = dict(ops=0, seqs=0, lines=0, changed=0, distinct=0, reorders=0, refused={}, hist={}, model_inv_false=0, setdrv={})
+    t1 = dict(ops=0, seqs=0, lines=0, changed=0, distinct=0, reorders=0, refused={}, hist={}, model_inv_false=0, setdrv={}, clones={})
     impl_files = []
     for k, (name, args) in enumerate(t1_runs):
         st, mismatch, crashed, impl = run_t1(harness, driver, args, WORK / "t1", f"r{k}", seed)
         impl_files.append((name, args, impl))
         for key in ("ops", "seqs", "lines", "changed", "distinct", "reorders", "model_inv_false"):
             t1[key] += st[key]
-        for key in ("refused", "hist", "setdrv"):
+        for key in ("refused", "hist", "setdrv", "clones"):
             for a, b in st[key].items():
                 t1[key][a] = t1[key].get(a, 0) + b
         if crashed:
@@ -1221,7 +1232,7 @@ def main():
     rep.cov["t1"] = dict(sequences=t1["seqs"], calls=t1["ops"], lines_compared=t1["lines"], calls_that_changed_the_graph=t1["changed"],
                          calls_after_which_a_consumer_or_member_list_was_reordered=t1["reorders"],
                          refused_by_the_model_and_thrown_by_the_code=t1["refused"], calls_by_kind=t1["hist"],
-                         setLogicDriver_calls=t1["setdrv"])
+                         setLogicDriver_calls=t1["setdrv"], createUnconnectedClone_and_copySubnet_calls=t1["clones"])
     rep.cov["t2"] = dict(designs=len(designs), dumps_checked=t2["dumps"], accepted=t2["ok"], rejected=t2["fail"], skipped_variants=t2["skipped"],
                          dumps_that_differ_from_predecessor=t2_distinct, node_kinds_seen=t2["kinds"],
                          boundaries_that_changed_the_graph=dict(sorted(changed.items(), key=lambda kv: -kv[1])[:60]), canary=can,
